@@ -33,7 +33,16 @@ type c07Case struct {
 
 type visNames struct{ Base, Mid, Sub, Sib, Other string }
 
+// visDecls: other spellings of an instance property declaration (the plain one is "prop" itself). The readonly
+// ones are only read (a write is refused for everybody, which says nothing about visibility).
+// ("readonly <modifier> T $p;" as a plain declaration is not accepted by the parser at all, so it is not a cell.)
+var visDecls = []string{"typed", "promoted", "promoted-typed", "promoted-readonly", "promoted-readonly-first", "readonly"}
+
 func visFixture(n visNames, deep bool, mod string, static bool, kind string) string {
+	return visFixtureDecl(n, deep, mod, static, kind, "")
+}
+
+func visFixtureDecl(n visNames, deep bool, mod string, static bool, kind, decl string) string {
 	st := ""
 	if static {
 		st = "static "
@@ -44,7 +53,22 @@ func visFixture(n visNames, deep bool, mod string, static bool, kind string) str
 	// another member kind cannot spoil the cell
 	switch kind {
 	case "prop":
-		fmt.Fprintf(&sb, "    %s %s$prop = 'V';\n", mod, st)
+		switch decl {
+		case "":
+			fmt.Fprintf(&sb, "    %s %s$prop = 'V';\n", mod, st)
+		case "typed":
+			fmt.Fprintf(&sb, "    %s string $prop = 'V';\n", mod)
+		case "promoted":
+			fmt.Fprintf(&sb, "    public function __construct(%s $prop = 'V') {}\n", mod)
+		case "promoted-typed":
+			fmt.Fprintf(&sb, "    public function __construct(%s string $prop = 'V') {}\n", mod)
+		case "promoted-readonly":
+			fmt.Fprintf(&sb, "    public function __construct(%s readonly string $prop = 'V') {}\n", mod)
+		case "promoted-readonly-first":
+			fmt.Fprintf(&sb, "    public function __construct(readonly %s string $prop = 'V') {}\n", mod)
+		case "readonly":
+			fmt.Fprintf(&sb, "    %s readonly string $prop;\n    public function __construct() { $this->prop = 'V'; }\n", mod)
+		}
 		if static {
 			fmt.Fprintf(&sb, "    public static function peek() { return self::$prop; }\n")
 		} else {
@@ -133,6 +157,13 @@ func visAllowed(mod, site string) bool {
 }
 
 func visScript(n visNames, deep bool, mod string, static bool, op visOp, site string) (string, bool) {
+	return visScriptDecl(n, deep, mod, static, op, site, "")
+}
+
+func visScriptDecl(n visNames, deep bool, mod string, static bool, op visOp, site, decl string) (string, bool) {
+	if decl != "" && (static || op.Kind != "prop" || (strings.Contains(decl, "readonly") && op.Op == "write")) {
+		return "", false
+	}
 	expr := op.Expr(static, n.Base)
 	parentExpr := "null"
 	if site == "parent::" {
@@ -149,7 +180,7 @@ func visScript(n visNames, deep bool, mod string, static bool, op visOp, site st
 		// form itself is unsupported, so it says nothing about visibility
 		return "", false
 	}
-	fix := visFixture(n, deep, mod, static, op.Kind)
+	fix := visFixtureDecl(n, deep, mod, static, op.Kind, decl)
 	// inside class bodies the access is spelled relative to $o / the class name; dynamic names need locals
 	pre := "$pn = 'prop'; $mn = 'meth'; $cn = '" + n.Base + "'; "
 	inFn := func(e string) string { return e }
@@ -333,7 +364,18 @@ func tVerdict(typ string, v tVal) string {
 	return member(base)
 }
 
-var tBoundaries = []string{"property", "function-param", "method-param", "static-method-param", "constructor-param", "closure-param", "return"}
+var tBoundaries = []string{"property", "function-param", "method-param", "static-method-param", "constructor-param", "closure-param", "return",
+	// the same typed property reached by other store paths: from a method through $this, declared in an ancestor of
+	// the object's class (written from outside, by the ancestor's own setter, by a setter of the subclass), static,
+	// constructor-promoted, and a method's return type
+	"property-this-write", "inherited-property", "inherited-property-this-write", "inherited-property-sub-this-write", "grandparent-property-this-write",
+	"static-property", "promoted-property", "method-return"}
+
+var tBaseBoundary = map[string]string{
+	"property-this-write": "property", "inherited-property": "property", "inherited-property-this-write": "property",
+	"inherited-property-sub-this-write": "property", "grandparent-property-this-write": "property", "static-property": "property",
+	"promoted-property": "constructor-param", "method-return": "return",
+}
 
 func typeScript(boundary, typ string, v tVal) string {
 	var sb strings.Builder
@@ -341,6 +383,22 @@ func typeScript(boundary, typ string, v tVal) string {
 	switch boundary {
 	case "property":
 		fmt.Fprintf(&sb, "class H { public %s $p; }\n$h = new H();\n$v = %s;\ntry { $h->p = $v; __obs(\"r\", $h->p); } catch (Throwable $e) { __obs(\"!r\", $e->getMessage()); }\n", typ, v.Lit)
+	case "property-this-write":
+		fmt.Fprintf(&sb, "class H { public %s $p; public function set($x) { $this->p = $x; return $this->p; } }\n$h = new H();\n$v = %s;\ntry { __obs(\"r\", $h->set($v)); } catch (Throwable $e) { __obs(\"!r\", $e->getMessage()); }\n", typ, v.Lit)
+	case "inherited-property":
+		fmt.Fprintf(&sb, "class HB { public %s $p; }\nclass H extends HB {}\n$h = new H();\n$v = %s;\ntry { $h->p = $v; __obs(\"r\", $h->p); } catch (Throwable $e) { __obs(\"!r\", $e->getMessage()); }\n", typ, v.Lit)
+	case "inherited-property-this-write":
+		fmt.Fprintf(&sb, "class HB { public %s $p; public function set($x) { $this->p = $x; return $this->p; } }\nclass H extends HB {}\n$h = new H();\n$v = %s;\ntry { __obs(\"r\", $h->set($v)); } catch (Throwable $e) { __obs(\"!r\", $e->getMessage()); }\n", typ, v.Lit)
+	case "inherited-property-sub-this-write":
+		fmt.Fprintf(&sb, "class HB { public %s $p; }\nclass H extends HB { public function set($x) { $this->p = $x; return $this->p; } }\n$h = new H();\n$v = %s;\ntry { __obs(\"r\", $h->set($v)); } catch (Throwable $e) { __obs(\"!r\", $e->getMessage()); }\n", typ, v.Lit)
+	case "grandparent-property-this-write":
+		fmt.Fprintf(&sb, "class HA { public %s $p; }\nclass HB extends HA { public function set($x) { $this->p = $x; return $this->p; } }\nclass H extends HB {}\n$h = new H();\n$v = %s;\ntry { __obs(\"r\", $h->set($v)); } catch (Throwable $e) { __obs(\"!r\", $e->getMessage()); }\n", typ, v.Lit)
+	case "static-property":
+		fmt.Fprintf(&sb, "class H { public static %s $p; }\n$v = %s;\ntry { H::$p = $v; __obs(\"r\", H::$p); } catch (Throwable $e) { __obs(\"!r\", $e->getMessage()); }\n", typ, v.Lit)
+	case "promoted-property":
+		fmt.Fprintf(&sb, "class H { public function __construct(public %s $p) {} }\n$v = %s;\ntry { $h = new H($v); __obs(\"r\", $h->p); } catch (Throwable $e) { __obs(\"!r\", $e->getMessage()); }\n", typ, v.Lit)
+	case "method-return":
+		fmt.Fprintf(&sb, "class H { public function m($x): %s { return $x; } }\n$h = new H();\n$v = %s;\ntry { __obs(\"r\", $h->m($v)); } catch (Throwable $e) { __obs(\"!r\", $e->getMessage()); }\n", typ, v.Lit)
 	case "function-param":
 		fmt.Fprintf(&sb, "function f(%s $x) { return $x; }\n$v = %s;\ntry { __obs(\"r\", f($v)); } catch (Throwable $e) { __obs(\"!r\", $e->getMessage()); }\n", typ, v.Lit)
 	case "method-param":
@@ -530,30 +588,43 @@ func TestC07(t *testing.T) {
 			for _, static := range []bool{false, true} {
 				for _, op := range visOps {
 					for _, site := range visSites {
-						src, ok := visScript(names, deep, mod, static, op, site)
-						if !ok {
-							continue
-						}
-						idx++
-						if !cfg.Mine(idx) {
-							continue
-						}
-						si := "inst"
-						if static {
-							si = "static"
-						}
-						key := fmt.Sprintf("cell:vis:%s:%s:%s:%s:%s", op.Kind, mod, si, site, op.Op)
-						want := "deny"
-						if visAllowed(mod, site) {
-							want = "allow"
-						}
-						c := c07Case{Key: key, Src: src, Want: want, Val: op.Val}
-						if mod != "public" {
-							rec.NonTrivial(key, fmt.Sprint(deep))
-						}
-						rec.Label("vis."+want, src)
-						if f := c07JudgeVis(pool, rec, c); f != nil {
-							rec.Fail(f.Key, f.Detail, f.Case)
+						for _, decl := range append([]string{""}, visDecls...) {
+							src, ok := visScriptDecl(names, deep, mod, static, op, site, decl)
+							if !ok {
+								continue
+							}
+							idx++
+							if !cfg.Mine(idx) {
+								continue
+							}
+							si := "inst"
+							if static {
+								si = "static"
+							}
+							key := fmt.Sprintf("cell:vis:%s:%s:%s:%s:%s", op.Kind, mod, si, site, op.Op)
+							if decl != "" {
+								key = fmt.Sprintf("cell:vis:%s@%s:%s:%s:%s:%s", op.Kind, decl, mod, si, site, op.Op)
+							}
+							want := "deny"
+							if visAllowed(mod, site) {
+								want = "allow"
+							}
+							c := c07Case{Key: key, Src: src, Want: want, Val: op.Val}
+							if mod != "public" {
+								rec.NonTrivial(key, fmt.Sprint(deep))
+							}
+							rec.Label("vis."+want, src)
+							if f := c07JudgeVis(pool, rec, c); f != nil {
+								if decl != "" {
+									// a listed finding of the plain declaration (same modifier, site and operation) is the
+									// same defect under another spelling of the declaration
+									plain := fmt.Sprintf("cell:vis:%s:%s:%s:%s:%s", op.Kind, mod, si, site, op.Op)
+									if pk := strings.Replace(f.Key, key, plain, 1); rec.IsKnown(pk) {
+										f.Key = pk
+									}
+								}
+								rec.Fail(f.Key, f.Detail, f.Case)
+							}
 						}
 					}
 				}
@@ -577,6 +648,17 @@ func TestC07(t *testing.T) {
 				rec.NonTrivial(key)
 				rec.Label("type."+want, c.Src)
 				if f := c07JudgeType(pool, rec, c); f != nil {
+					if base := tBaseBoundary[b]; base != "" {
+						// the same (declared type, value) pair is a listed finding at the boundary this store path
+						// shares its type test with: one defect of the type test, not one per path
+						if bk := strings.Replace(f.Key, key, fmt.Sprintf("cell:type:%s:%s:%s", base, typ, v.Name), 1); rec.IsKnown(bk) {
+							f.Key = bk
+						} else if b == "static-property" && strings.HasSuffix(f.Key, ":accepted") {
+							// no declared type of a static property is enforced at all (the class keeps only the
+							// values of its static members): one finding, not one per (type, value) pair
+							f.Key = "feature:static-property-type-not-enforced"
+						}
+					}
 					rec.Fail(f.Key, f.Detail, f.Case)
 				}
 			}
